@@ -9,6 +9,10 @@
 //	          sequence of 0-3 tokens / look-alikes / quoted forms / empty elements x separators (repetition.go)
 //	family 4  application shapes (root/prefix/parameter Use, groups, mounts, parameter kinds ...)
 //	          x routing configurations x degenerate request targets x methods (shapes.go)
+//	family 6  response-helper call programs (other entry points, optional arguments, several calls on one
+//	          response / Redirect object, strings that travel in the request, body writers, End, Drop) (programs.go)
+//	family 7  the grammars of family 5 with HTAB as optional whitespace (repetition.go)
+//	family 8  configuration combinations, redundant spellings, method lists of other lengths (combos.go)
 //	balloon   inputs suspected of huge allocations, each on a fresh app in a child under
 //	          `ulimit -v 4000000` (an OOM is a reported violation, not a dead check)
 //
@@ -52,8 +56,8 @@ const (
 	// millisecond; the balloon inputs legitimately burn seconds (hundreds of MiB inflated).
 	cpuCapSeconds        = 5.0
 	cpuCapBalloonSeconds = 20.0
-	blockedSeconds = 120  // a case in flight while the process stays idle this long is blocked
-	workerASLimit  = 12 << 30
+	blockedSeconds       = 120 // a case in flight while the process stays idle this long is blocked
+	workerASLimit        = 12 << 30
 	// a worker whose process died is resumed (culprit skipped) at most this many times
 	maxDeathsPerWorker = 2
 )
@@ -73,10 +77,10 @@ var (
 // shards
 
 type shard struct {
-	Fam string // f1 | f1t | f2s | f2p | f3 | f4 | f5
-	Cfg int // f4: index into cfg4s(tier); f5: index into cfgsAll
-	A   int // f1: request line; f1t: handler line; f2*: seed; f3: helper; f4: index into f4ShapeSets(tier); f5: index into units5()
-	B   int // f1t: first slot; f2p: first position
+	Fam string // f1 | f1t | f2s | f2p | f3 | f4 | f5 | f6 | f7 | f8
+	Cfg int    // f4: index into cfg4s(tier); f5, f7: index into cfgsAll; f8: index into cfgsEvery
+	A   int    // f1: request line; f1t: handler line; f2*: seed; f3: helper; f4: index into f4ShapeSets(tier); f5: index into units5()
+	B   int    // f1t: first slot; f2p: first position
 }
 
 // pairLine: in the quick tier the 2-letter header sets are not combined with request lines that
@@ -85,7 +89,9 @@ type shard struct {
 func pairLine(l reqLine) bool { return l.M.Token && l.V.V != "JUNK" }
 
 // pairCfg: in the quick tier the pair neighbourhood runs on two configurations only.
-func pairCfg(quick bool, c int) bool { return !quick || cfgs[c].Name == "default" || cfgs[c].Name == "customctx" }
+func pairCfg(quick bool, c int) bool {
+	return !quick || cfgs[c].Name == "default" || cfgs[c].Name == "customctx"
+}
 
 func pairSeedCount(quick bool) int {
 	if quick {
@@ -161,6 +167,21 @@ func buildAllShards(quick bool) []shard {
 			out = append(out, shard{"f5", c, ui, 0})
 		}
 	}
+	for pi := range programs {
+		for c := range cfgs {
+			out = append(out, shard{"f6", c, pi, 0})
+		}
+	}
+	for ui := range units5() {
+		for c := range cfgsAll {
+			out = append(out, shard{"f7", c, ui, 0})
+		}
+	}
+	for li := range servedLines() {
+		for c := range cfgsCombo {
+			out = append(out, shard{"f8", len(cfgsAll) + c, li, 0})
+		}
+	}
 	c4 := cfg4s(quick)
 	for si, set := range f4ShapeSets(quick) {
 		for c := range c4 {
@@ -229,6 +250,19 @@ func (w *worker) runShard(s shard, quick bool) {
 	case "f5":
 		u := units5()[s.A]
 		w.runF5Shard(&u)
+	case "f6":
+		for qi := range w.qs {
+			w.runF6(s.A, qi)
+		}
+	case "f7":
+		u := units5()[s.A]
+		w.runF7Shard(&u, s.Cfg == f7Long)
+	case "f8":
+		line := servedLines()[s.A]
+		w.f1tag = "f8"
+		w.runF1(line, nil)
+		enumSets(1, 0, len(slots), func(h hset) { w.runF1(line, h) })
+		w.f1tag = ""
 	}
 }
 
@@ -594,6 +628,18 @@ func caseClass(m map[string]any) string {
 		return fmt.Sprintf("f3 helper=%v", m["helper"])
 	case "f5-repetition":
 		return fmt.Sprintf("f5 parser=%v", m["parser"])
+	case "f7-tabs":
+		return fmt.Sprintf("f7 parser=%v", m["parser"])
+	case "f6-programs":
+		return fmt.Sprintf("f6 program=%v", m["program"])
+	case "f8-config-combinations":
+		var ids []string
+		if ls, ok := m["letters"].([]any); ok {
+			for _, x := range ls {
+				ids = append(ids, fmt.Sprint(x))
+			}
+		}
+		return fmt.Sprintf("f8 config=%v letters=%s", m["config"], strings.Join(ids, "+"))
 	case "f4-shapes":
 		return fmt.Sprintf("f4 shape-kind=%v target=%v", m["shape_kind"], m["target_class"])
 	}
@@ -607,7 +653,7 @@ func ctxOf(m map[string]any) string {
 		}
 		return "default"
 	}
-	if m != nil && m["config"] == "customctx" {
+	if c, _ := m["config"].(string); m != nil && strings.HasPrefix(c, "customctx") {
 		return "custom"
 	}
 	return "default"
@@ -883,8 +929,18 @@ func main() {
 			samples = append(samples, m)
 		}
 	}
-	if *flagFamilies == "" && len(r.P.Caps) == 0 && len(r.P.Violations) == 0 && (r.P.Counters["clean_request_reached_handler"] == 0 || r.P.Counters["f3_cases"] == 0 || r.P.Counters["f2_cases"] == 0 || r.P.Counters["f4_cases"] == 0 || r.P.Counters["f5_cases"] == 0 || r.P.Counters["f4_degenerate_target_reached_handler"] == 0) {
+	if *flagFamilies == "" && len(r.P.Caps) == 0 && len(r.P.Violations) == 0 && (r.P.Counters["clean_request_reached_handler"] == 0 || r.P.Counters["f3_cases"] == 0 || r.P.Counters["f2_cases"] == 0 || r.P.Counters["f4_cases"] == 0 || r.P.Counters["f5_cases"] == 0 || r.P.Counters["f6_program_ran"] == 0 || r.P.Counters["f7_cases"] == 0 || r.P.Counters["f8_cases"] == 0 || r.P.Counters["f4_degenerate_target_reached_handler"] == 0) {
 		core.Fatal("vacuous run: no clean request reached the /all handler, or a family did not run")
+	}
+	if os.Getenv("C07_OUTCOMES") != "" { // development aid: the outcome classes and their counts
+		var ks []string
+		for k := range r.P.Outcomes {
+			ks = append(ks, k)
+		}
+		sort.Strings(ks)
+		for _, k := range ks {
+			fmt.Fprintf(os.Stderr, "OUTCOME %8d %s\n", r.P.Outcomes[k], k)
+		}
 	}
 	quick := r.Quick()
 	maxHdr := 2
@@ -910,17 +966,17 @@ func main() {
 	rule := fmt.Sprintf("wire level, one in-memory connection per case, %d configs %v. "+
 		"F1 = %d request lines (9 methods x %d targets x 4 versions) x every set of <=2 header letters from %d slots / %d letters (each slot has its own hostile value menu; Content-Type/-Encoding/framing letters also shape the body)%s. "+
 		"F2 = %d seeds x every single edit (delete, replace, insert of %d bytes at every offset) and every pair of edits for the %d shortest seed(s)%s. "+
-		"%s%s"+
+		"%s%s%s%s%s"+
 		"F3 = %d helpers x %d attacker strings (all strings of <=3 symbols over {a,CR,LF,CRLF,NUL,\",;,comma,:,SP,e-acute} + 4 classics). "+
 		"Balloon = %d inputs (msgpack array headers in fiber_flash, 1-3 layers of gzip over zeros) each on a fresh app in a child under ulimit -v 4000000. "+
-		"Non-trivial = differs from the benign baseline (F1: any header letter or hostile request-line letter; F2: any edit; F3: q not in a*; F4: any target other than a plain route base; F5: any value with at least one element; balloon: all) AND its request bytes were not already produced by another case of the same enumeration shard (hash set per shard; duplicates across shards of the pair neighbourhood are not removed). "+
+		"Non-trivial = differs from the benign baseline (F1: any header letter or hostile request-line letter; F2: any edit; F3: q not in a*; F4: any target other than a plain route base; F5, F7: any value with at least one element; F6: q not in a*; F8: as F1; balloon: all) AND its request bytes were not already produced by another case of the same enumeration shard (hash set per shard; duplicates across shards of the pair neighbourhood are not removed). "+
 		"Oracles: no panic (escaped or inside an accessor probe); process survives and ServeConn returns within %.0f CPU-seconds (balloon inputs: %.0f), a death/hang is confirmed by re-running the case alone in a fresh process; MemStats.TotalAlloc delta <= %d + %d*len(request) (re-measured on a fresh app before reporting); reply parses under the strict parser, response count bounded by the header blocks sent (exactly 1 for body-less well-formed requests); "+
 		"F3: header names subset of the helper's expected set, each once, expected status and body (helpers marked name-like are not judged for q containing CR/LF/NUL: outside the documented domain of a token position); "+
 		"status: definitely malformed requests (empty method, non-numeric/negative/conflicting Content-Length, header line without colon, NUL in a header value) -> 4xx; well-formed request with method outside the configured set -> 501, inside -> not 501; never 5xx other than 501/505; everything else unspecified.",
 		len(cfgs), cfgNames, len(allLines()), len(targetsL), len(slots), nLetters,
 		map[bool]string{true: " (quick tier: the 2-letter sets are left out for the request lines refused at the request line itself - empty method or version JUNK)",
 			false: fmt.Sprintf(" plus every set of 3 letters for the %d request lines that reach a handler", len(handlerLines()))}[quick],
-		len(seeds), len(editBytes), pairSeedCount(quick), map[bool]string{true: " (quick tier: pairs on the configs default and customctx only)", false: ""}[quick], f4Rule(quick), f5Rule(), len(helpers), len(attackStrings()), len(balloonCases(quick)), cpuCapSeconds, cpuCapBalloonSeconds, budgetA, budgetB)
+		len(seeds), len(editBytes), pairSeedCount(quick), map[bool]string{true: " (quick tier: pairs on the configs default and customctx only)", false: ""}[quick], f4Rule(quick), f5Rule(), f6Rule(), f7Rule(), f8Rule(), len(helpers), len(attackStrings()), len(balloonCases(quick)), cpuCapSeconds, cpuCapBalloonSeconds, budgetA, budgetB)
 	ev := core.Evidence{
 		Level:       "exploration",
 		Exhaustive:  true,
@@ -931,7 +987,7 @@ func main() {
 			"rule":                rule,
 			"bounds": map[string]any{"max_header_letters": maxHdr, "request_lines": len(allLines()), "header_slots": len(slots), "header_letters": nLetters,
 				"seeds": len(seeds), "pair_seeds": pairSeedCount(quick), "edit_bytes": len(editBytes), "helpers": helperNames, "attack_strings": len(attackStrings()),
-				"balloon_inputs": len(balloonCases(quick)), "f5_parsers": len(parsers5), "f5_units": len(units5()), "f5_configs": len(cfgsAll), "f4_shapes": len(shapes), "f4_shape_sets": len(f4ShapeSets(quick)), "f4_routing_configs": len(cfg4s(quick)), "f4_targets": len(targets4), "f4_methods": methods4(quick), "configs": cfgNames, "cpu_cap_seconds": cpuCapSeconds, "cpu_cap_seconds_balloon": cpuCapBalloonSeconds, "workers": n},
+				"balloon_inputs": len(balloonCases(quick)), "f5_parsers": len(parsers5), "f5_units": len(units5()), "f5_configs": len(cfgsAll), "f6_programs": len(programs), "f7_tab_separators_per_parser": "2-3", "f8_configs": len(cfgsCombo), "f8_request_lines": len(servedLines()), "f4_shapes": len(shapes), "f4_shape_sets": len(f4ShapeSets(quick)), "f4_routing_configs": len(cfg4s(quick)), "f4_targets": len(targets4), "f4_methods": methods4(quick), "configs": cfgNames, "cpu_cap_seconds": cpuCapSeconds, "cpu_cap_seconds_balloon": cpuCapBalloonSeconds, "workers": n},
 			"alloc_budget": map[string]any{"A_bytes": budgetA, "B_bytes_per_request_byte": budgetB,
 				"max_fraction_used_by_cases_within_budget": maxFrac, "that_case_alloc_bytes": maxAlloc, "that_case_request_bytes": maxLen, "that_case": json.RawMessage(orNull(maxDesc))},
 			"unspecified_skipped": r.P.Counters["unspecified_skipped"],
